@@ -28,12 +28,13 @@ def main():
         d = os.path.join(sd, sid)
         meta = json.load(open(os.path.join(d, "meta.json")))
         checks = a.checks.split(",") if a.checks else [meta["property"]] + meta.get("also", [])
-        dirty = subprocess.run(["git", "-C", REPO, "status", "--porcelain"], capture_output=True, text=True).stdout.strip()
-        if dirty:
-            print("refusing: /repo has uncommitted changes:\n" + dirty)
-            return 2
         with open(os.path.join(ROOT, ".cache", "repo.lock"), "w") as lk:
             fcntl.flock(lk, fcntl.LOCK_EX)
+            # (checked under the lock: another seeded run may have had a patch applied a moment ago)
+            dirty = subprocess.run(["git", "-C", REPO, "status", "--porcelain"], capture_output=True, text=True).stdout.strip()
+            if dirty:
+                print("refusing: /repo has uncommitted changes:\n" + dirty)
+                return 2
             try:
                 r = subprocess.run(["git", "-C", REPO, "apply", os.path.join(d, "patch.diff")], capture_output=True, text=True)
                 if r.returncode != 0:
